@@ -207,7 +207,6 @@ class Topic(Entity):
         Returns:
             List of delivery events for each subscriber.
         """
-        now = self._clock.now if self._clock else Instant.Epoch
         self._messages_published += 1
 
         # Store in history if retaining
@@ -226,6 +225,11 @@ class Topic(Entity):
             self._messages_delivered += 1
             self._delivery_latencies.append(self._delivery_latency)
 
+        # The delivery events are emitted when this generator returns, i.e.
+        # after all the latencies above have elapsed: stamp them with the
+        # current time, not with the time publish() was entered.
+        now = self._clock.now if self._clock else Instant.Epoch
+        for subscription in active_subscribers:
             delivery_event = Event(
                 time=now,
                 event_type="topic_message",
